@@ -22,6 +22,7 @@ CheckOf(e) ==
     [] e.e = "FrameIn" -> FrameInCheck(e.type, e.tag, e.t)
     [] e.e = "Silence" -> SilenceCheck(e.on = 1, e.t)
     [] e.e = "Reopen" -> ReopenCheck(e.t)
+    [] e.e = "Age" -> AgeCheck(e.k, e.t)
     [] e.e = "End" -> EndCheck(e.t)
     [] OTHER -> "harness.unknownEvent"
 
@@ -38,6 +39,7 @@ UpdOf(e) ==
     [] e.e = "FrameIn" -> FrameInUpd(e.type, e.tag, e.t)
     [] e.e = "Silence" -> SilenceUpd(e.on = 1, e.t)
     [] e.e = "Reopen" -> ReopenUpd(e.t)
+    [] e.e = "Age" -> AgeUpd(e.k, e.t)
     [] e.e = "End" -> EndUpd(e.t)
 
 TNext == /\ verdict = "ok" /\ l <= Len(Ev)
